@@ -7,7 +7,7 @@
 ID="$1"; shift
 CHECKS="${@:-$ID}"
 R="${ROUND:-}"; SUF=""; [ "$R" = "2" ] && SUF="b"; [ "$R" = "3" ] && SUF="c"
-WT=/tmp/wt$R-$ID; SEED=/tmp/seed$R-$ID
+WT="${WT:-/tmp/wt$R-$ID}"; SEED=/tmp/seed$R-$ID; export WT
 OUT=/verif/seeded/$ID$SUF
 mkdir -p "$OUT"
 cp "$SEED/patch.diff" "$OUT/patch.diff" 2>/dev/null || git -C "$WT" diff > "$OUT/patch.diff"
